@@ -77,6 +77,7 @@ namespace sim
   uint64_t now_ns();
   void advance(uint64_t ns);
   void at(uint64_t t_ns, std::function<void()> fn);       // discrete event
+  void sleep_ns(uint64_t ns);    // block the calling task for ns of simulated time
   void ev(const char* tag, uint64_t a = 0, uint64_t b = 0, uint64_t c = 0);  // event log (hash only)
   void probe(const char* name, uint64_t n = 1);
   void count_fault(const char* name, uint64_t n = 1);
